@@ -201,6 +201,25 @@ class C02(E1Prop):
                     o['dt'] = rng.choice([1, 5, 30])
                 self.script = seq
                 self.nprobes += 1
+            elif w.use_queue and rng.random() < 0.25:
+                # story: the fault probe goes on the job that puts a
+                # multi-target PR *into* the queue (it publishes the master
+                # queues one by one, then the queue commits)
+                dests = ops.dest_branches(w.cfg)
+                d = rng.choice(dests[:max(1, len(dests) - 1)])
+                seq = [{'op': 'open_pr', 'actor': 'alice',
+                        'src': 'bugfix/TEST-621', 'dst': d, 'kind': 'new'},
+                       {'op': 'eval', 'p': 0},
+                       {'op': 'ci_green_all', 'which': ['src', 'w']},
+                       {'op': 'probe', 'i': 10 ** 6, 'last': True,
+                        'wipe': rng.random() < 0.3, 'queueing': True,
+                        'nfaults': 8 if tier == 'quick' else 0,
+                        'skip_roll': 1.0,
+                        'pick': rng.randrange(10 ** 9)}]
+                for o in seq:
+                    o['dt'] = rng.choice([1, 5, 30])
+                self.script = seq
+                self.nprobes += 1
             elif w.use_queue and rng.random() < 0.3:
                 # story: a PR sits in the queue while an admin creates a
                 # newer development branch (new branch pushed, then the
@@ -304,6 +323,10 @@ class C02(E1Prop):
                         for x in (m.get('changed') or {})))
                 prio = [f for f in space if on_dest(f)]
                 rest = [f for f in space if not on_dest(f)]
+                if op.get('queueing'):
+                    # crashes between the single pushes of the queueing job
+                    prio = [f for f in space if f['kind'] == 'kill']
+                    rest = [f for f in space if f['kind'] != 'kill']
                 if len(prio) > 8:
                     prio = r.sample(prio, 8)
                 k = max(2, op['nfaults'] - len(prio))
